@@ -13,6 +13,7 @@ package main
 
 import (
 	"bufio"
+	"bytes"
 	"crypto/sha256"
 	"encoding/hex"
 	"encoding/json"
@@ -24,6 +25,7 @@ import (
 	"os/exec"
 	"sort"
 	"strings"
+	"sync"
 	"time"
 )
 
@@ -48,6 +50,9 @@ type Prop struct {
 	Exec func(ops []string) []string
 	// Isolate: run Exec in child processes (the case may crash the process).
 	Isolate bool
+	// Parallel > 1 (with Isolate): the cases are independent and expensive; run that many child
+	// processes at a time.  The trace keeps the generated order.
+	Parallel int
 }
 
 var registry = map[string]*Prop{}
@@ -292,6 +297,40 @@ func runAll(p *Prop, seed int64, tier string, out string) {
 				}
 				fmt.Fprintf(bw, "%s => %s\n", o, res)
 			}
+		}
+	} else if p.Parallel > 1 {
+		// chunks of a few cases, p.Parallel children at a time, output in generated order
+		chunk := 1 + len(cases)/(4*p.Parallel)
+		type res struct {
+			buf     bytes.Buffer
+			crashes int
+		}
+		var chunks [][]Case
+		for i := 0; i < len(cases); i += chunk {
+			j := i + chunk
+			if j > len(cases) {
+				j = len(cases)
+			}
+			chunks = append(chunks, cases[i:j])
+		}
+		results := make([]res, len(chunks))
+		sem := make(chan struct{}, p.Parallel)
+		var wg sync.WaitGroup
+		for k := range chunks {
+			wg.Add(1)
+			sem <- struct{}{}
+			go func(k int) {
+				defer wg.Done()
+				defer func() { <-sem }()
+				w := bufio.NewWriter(&results[k].buf)
+				results[k].crashes = runIsolated(p, chunks[k], w)
+				w.Flush()
+			}(k)
+		}
+		wg.Wait()
+		for k := range results {
+			bw.Write(results[k].buf.Bytes())
+			st.Crashes += results[k].crashes
 		}
 	} else {
 		const batch = 500
